@@ -2,6 +2,7 @@
 from __future__ import annotations
 
 import gc
+import json
 import random
 import shutil
 from pathlib import Path
@@ -49,6 +50,14 @@ def one(rng, acc, d, clsname, record=True):
         cls = RE.IH5Record if cls is RE.IH5MFRecord else RE.IH5MFRecord
         rec = cls(files, "r")
         acc.count("merges_through_other_class") if record else None
+    if rng.random() < 0.3:
+        # a refused call on the committed record (nothing to commit / nothing to discard) must not disturb a later merge
+        for call, kw in (("commit_patch", {"manifest_exts": {"refused": 1}} if cls is RE.IH5MFRecord else {}), ("discard_patch", {})):
+            try:
+                getattr(rec, call)(**kw)
+                return "refused-call-accepted", f"{call}({kw}) on a committed record without open patch returned"
+            except Exception:
+                acc.count("refused_calls_before_merge") if record else None
     src_dump = E.full_dump(rec)
     meta_before = [meta_key(u) for u in rec.ih5_meta]
     files_before = list(rec.ih5_files)
@@ -57,7 +66,10 @@ def one(rng, acc, d, clsname, record=True):
         acc.count(f"source_containers.{ncont}")
 
     # -- merge while the source stays open
-    merged = rec.merge_files(d / "out" / "mrg")
+    try:
+        merged = rec.merge_files(d / "out" / "mrg")
+    except BaseException as e:
+        return "merge-failed", f"merge_files of a committed record without stub raised {type(e).__name__}: {str(e)[:120]}; target directory now holds {sorted(p.name for p in (d / 'out').iterdir())}"
     if record:
         acc.count("merges")
     if [meta_key(u) for u in rec.ih5_meta] != meta_before:
